@@ -431,3 +431,281 @@ Proof.
       * exfalso. assert (L : exists h, lookup s h = Some (HOwn a)) by (destruct act; try contradiction; eauto).
         destruct L as (h & L). eapply novis_lookup; eauto.
 Qed.
+
+(* ------------------------------------------------------------------ *)
+(** * The invariant *)
+
+Definition chkR1 (s : s04) (e : ev) : bool :=
+  match e with ERunRet _ => subset (o_must s) (o_notified s) | _ => true end.
+
+Record B1 (k : list mop) (s : st) : Prop := mkB1 {
+  b_al : teardown k -> o_alive (st04 (tr s)) = false;
+  b_ob : forall a, In a (o_must (st04 (tr s))) ->
+           vis a (tr s) = 0 /\ ~ In a (o_slabkid (st04 (tr s))) /\ (exists y, aget (actors s) a = Some y) /\ Ob a k s }.
+
+Lemma nmem_In x l : nmem x l = true <-> In x l.
+Proof.
+  induction l as [|y l IH]; simpl; [split; [discriminate | contradiction]|].
+  rewrite orb_true_iff, IH, N.eqb_eq. split; intros [H|H]; auto.
+Qed.
+
+Lemma subset_In a b : (forall x, In x a -> In x b) -> subset a b = true.
+Proof. intros H. unfold subset. apply forallb_forall. intros x Hx. apply nmem_In. auto. Qed.
+
+Lemma chkR1_pb s e : pbB e = true -> chkR1 s e = true.
+Proof. destruct e; try reflexivity. discriminate. Qed.
+
+Lemma tops_imops a k : tops k = true -> imops a k = 0.
+Proof.
+  induction k as [|m k IH]; simpl; auto. intros T. apply andb_prop in T as [T1 T2]. rewrite IH by auto.
+  destruct m; try discriminate T1; reflexivity.
+Qed.
+Lemma tops_norun k c : tops k = true -> ~ In (MRunItem c) k.
+Proof. intros T IN. unfold tops in T. rewrite forallb_forall in T. specialize (T _ IN). discriminate T. Qed.
+
+Lemma plain_ici a c : ci_call c = false -> ici a c = 0.
+Proof. unfold ci_call, ici. destruct (ci_kind c); try discriminate; reflexivity. Qed.
+Lemma hok_ici p a c : hok p c -> ici a c = 0.
+Proof. unfold ici. intros [(b & arg & E & _)|(key & E & _)]; rewrite E; reflexivity. Qed.
+Lemma iq_zero a l : Forall (fun c => ici a c = 0) l -> iq a l = 0.
+Proof. induction 1; simpl; lia. Qed.
+
+(* at a point where nothing is queued, an actor that is not a slab child has no invisible owner in the state *)
+Lemma ist_quiescent a s : KS s -> QTags s -> SK s -> mainq s = [] -> lazyq s = [] ->
+  ~ In a (o_slabkid (st04 (tr s))) -> ist a s = 0.
+Proof.
+  intros KK QT K MQ LQ NS. unfold ist. rewrite MQ, LQ. cbn [iq].
+  assert (I1 : iq a (idleq s) = 0).
+  { apply iq_zero. eapply Forall_impl; [|apply (qt_idle _ QT)]. intros c [C _]. apply plain_ici; auto. }
+  assert (I2 : itim a (timers s) = 0).
+  { rewrite <- iq_map_ti. apply iq_zero. eapply Forall_impl; [|apply (qt_timers _ QT)]. intros c [C _]. apply plain_ici; auto. }
+  assert (I3 : forall l, (forall p y, In (p, y) l -> aget (actors s) p = Some y) -> iacts a l = 0).
+  { induction l as [|[p y] l IH]; intros H; simpl; auto. rewrite IH by (intros; apply H; right; auto).
+    pose proof (H p y (or_introl eq_refl)) as AY.
+    destruct (ks_act _ KK _ _ AY) as (_ & _ & _ & _ & HK).
+    destruct (a_state y) eqn:SA; simpl.
+    - unfold held_of in HK. rewrite SA in HK. rewrite iq_zero; auto. eapply Forall_impl; [|exact HK]. intros c. apply hok_ici.
+    - rewrite islab_zero; auto. intros c IN ->. apply NS. eapply (SK_slabkid s p); eauto.
+      unfold slab_of. rewrite AY, SA. exact IN.
+    - reflexivity. }
+  rewrite I1, I2, (I3 (actors s)); [lia|]. intros p y IN. apply aget_in; auto. apply (ks_keys _ KK).
+Qed.
+
+Lemma app_tail_in {X} (evs evs' : list X) e t : evs ++ t = evs' ++ e :: t -> In e evs.
+Proof.
+  intros E. assert (Q : evs ++ t = (evs' ++ [e]) ++ t) by (rewrite <- app_assoc; exact E).
+  apply app_inv_tail in Q. subst. apply in_or_app. right. left. reflexivity.
+Qed.
+
+Lemma neutral_not evs e : forallb pbB evs = true -> pbB e = false -> ~ In e evs.
+Proof. intros F P IN. rewrite forallb_forall in F. rewrite (F _ IN) in P. discriminate. Qed.
+
+(* shape of the continuation in front of phase micro-ops *)
+Lemma shape_drain i k0 : shape (MDrain i :: k0) -> teardown (MDrain i :: k0).
+Proof.
+  intros [p [PH _]]. unfold phase_of in PH. simpl in PH. destruct (tops k0) eqn:TP; [|discriminate].
+  unfold teardown, phase_of. simpl. rewrite TP. exact I.
+Qed.
+Lemma shape_loop t k0 : shape (MLoop t :: k0) -> tops k0 = true /\ ~ teardown (MLoop t :: k0).
+Proof.
+  intros [p [PH _]]. unfold phase_of in PH. simpl in PH. destruct (tops k0) eqn:TP; [|discriminate].
+  split; auto. unfold teardown, phase_of. simpl. rewrite TP. auto.
+Qed.
+Lemma shape_new t k0 : shape (MNew t :: k0) -> ~ teardown (MNew t :: k0).
+Proof.
+  intros [p [PH _]]. unfold phase_of in PH. simpl in PH. destruct (tops k0) eqn:TP; [|discriminate].
+  unfold teardown, phase_of. simpl. rewrite TP. auto.
+Qed.
+
+Lemma st04_one evs2 e evs1 t : forallb pbB evs1 = true -> forallb pbB evs2 = true ->
+  let s1 := st04 (evs1 ++ t) in
+  o_must s1 = o_must (st04 t) /\ o_alive s1 = o_alive (st04 t) /\ o_slabkid s1 = o_slabkid (st04 t) /\
+  (forall a, cnt_of s1 a = vis a t) /\
+  o_must (st04 (evs2 ++ e :: evs1 ++ t)) = o_must (upd04 s1 e) /\
+  o_alive (st04 (evs2 ++ e :: evs1 ++ t)) = o_alive (upd04 s1 e) /\
+  o_slabkid (st04 (evs2 ++ e :: evs1 ++ t)) = o_slabkid (upd04 s1 e) /\
+  (forall a, vis a (evs2 ++ e :: evs1 ++ t) = vis a t + vis1 a e).
+Proof.
+  intros F1 F2 s1. destruct (st04_neutral evs1 t F1) as (A1 & B1' & C1 & D1).
+  destruct (st04_neutral evs2 (e :: evs1 ++ t) F2) as (A2 & B2 & C2 & D2).
+  repeat split; auto.
+  - intros a. unfold s1. rewrite st04_cnt. apply D1.
+  - intros a. rewrite D2. cbn [vis]. rewrite D1. lia.
+Qed.
+
+Lemma okx_one evs2 e evs1 t : forallb pbB evs1 = true -> forallb pbB evs2 = true ->
+  okx chkR1 (evs2 ++ e :: evs1 ++ t) = chkR1 (st04 (evs1 ++ t)) e && okx chkR1 t.
+Proof.
+  intros F1 F2. rewrite okx_app by (intros x m IN; apply chkR1_pb; rewrite forallb_forall in F2; auto).
+  cbn [okx]. f_equal. apply okx_app. intros x m IN. apply chkR1_pb. rewrite forallb_forall in F1. auto.
+Qed.
+
+Lemma cle_in_table m s pre s' a y k0 :
+  (forall c z, aget (actors s) c = Some z -> srange (a_strong z)) -> OI (m :: k0) s -> vis a (tr s) = 0 ->
+  handle m s = (pre, s') -> aget (actors s) a = Some y -> exists y', aget (actors s') a = Some y'.
+Proof.
+  intros SR OO V E AY. destruct (handle_cle _ _ _ _ SR E a) as [C|(act & l & -> & R)].
+  - destruct (C y AY) as (y' & AY' & _). eauto.
+  - exfalso. assert (L : exists h, lookup s h = Some (HOwn a)) by (destruct act; try contradiction; eauto).
+    destruct L as (h & L). eapply novis_lookup; eauto.
+Qed.
+
+Theorem step_B1 m k0 s pre s' :
+  shape (m :: k0) -> KS s -> QTags s -> SK s -> OI (m :: k0) s -> I2 (m :: k0) s ->
+  Z.of_nat (length (tr s)) < CMAX - 1 ->
+  handle m s = (pre, s') -> B1 (m :: k0) s -> okx chkR1 (tr s) = true ->
+  B1 (pre ++ k0) s' /\ okx chkR1 (tr s') = true.
+Proof.
+  intros SH KK QT K OO II LEN E [AL OBS] OK.
+  pose proof (OI_prem _ _ _ KK OO LEN) as [SR HB LIM].
+  (* what an old obligation becomes, when the step is not one that discards the main queue *)
+  assert (KEEP : forall a, In a (o_must (st04 (tr s))) -> (forall i, m <> MDrain i) -> (forall t, m <> MNew t) -> m <> MDropOwn a true ->
+                 (exists y, aget (actors s') a = Some y) /\ Ob a (pre ++ k0) s').
+  { intros a IN ND NN NO. destruct (OBS a IN) as (V0 & NS & (y & AY) & OB). split.
+    - eapply cle_in_table; eauto.
+    - eapply Ob_step; eauto. }
+  destruct (handle_evB _ _ _ _ E) as [(evs & TE & FE)|(e & PE & (s1 & (evs1 & T1 & F1) & (evs2 & T2 & F2)) & EV)].
+  - (* no event that moves the obligations *)
+    destruct (st04_neutral evs (tr s) FE) as (MU & ALV & SKD & VI). rewrite <- TE in MU, ALV, SKD, VI.
+    assert (NEU : forall e0 evs', pbB e0 = false -> tr s' = evs' ++ e0 :: tr s -> False).
+    { intros e0 evs' P Q. rewrite TE in Q. apply app_tail_in in Q. eapply neutral_not; eauto. }
+    split; [constructor|].
+    + intros TD. rewrite ALV. destruct (teardown_enter _ _ _ _ _ SH E TD) as [T0|[-> ALI]]; [auto|].
+      exfalso. cbn [handle] in E. unfold do_top in E. rewrite ALI in E. injp E. eapply (NEU EDropBegin []); reflexivity.
+    + intros a IN. rewrite MU in IN. destruct (OBS a IN) as (V0 & NS & _ & _).
+      assert (ND : forall i, m <> MDrain i).
+      { intros i ->. pose proof (AL (shape_drain _ _ SH)) as A. rewrite (must_alive _ A) in IN. destruct IN. }
+      assert (NN : forall t, m <> MNew t).
+      { intros t ->. cbn [handle] in E. injp E. eapply (NEU (ENew t) []); reflexivity. }
+      assert (NO : m <> MDropOwn a true).
+      { intros ->. eapply novis_dropown; eauto. }
+      destruct (KEEP a IN ND NN NO) as (G1 & G2). rewrite VI, SKD. auto.
+    + rewrite (okx_evs_in chkR1 pbB s s' chkR1_pb); [exact OK | exists evs; auto].
+  - (* one event that moves them *)
+    assert (TE : tr s' = evs2 ++ e :: evs1 ++ tr s) by (rewrite T2; unfold emit; cbn [tr set_tr]; rewrite T1; reflexivity).
+    destruct (st04_one evs2 e evs1 (tr s) F1 F2) as (M1 & A1 & S1 & C1 & MU & ALV & SKD & VI). rewrite <- TE in MU, ALV, SKD, VI.
+    assert (OKX : okx chkR1 (tr s') = chkR1 (st04 (evs1 ++ tr s)) e) by (rewrite TE, (okx_one evs2 e evs1 (tr s) F1 F2), OK, andb_true_r; reflexivity).
+    rewrite OKX. clear OKX.
+    destruct e; try discriminate PE; cbn [evok] in EV.
+    + (* ENew *)
+      subst m. cbn [upd04 o_must o_alive] in MU, ALV. split; [constructor|reflexivity].
+      * intros TD. exfalso. destruct (teardown_enter _ _ _ _ _ SH E TD) as [T0|[Q _]]; [exact (shape_new _ _ SH T0) | discriminate Q].
+      * intros a IN. rewrite MU in IN. destruct IN.
+    + (* ERunRet: every obligation is discharged *)
+      destruct EV as (t & -> & MQ & LQ). destruct (shape_loop _ _ SH) as [TP NT].
+      cbn [upd04 o_must o_alive] in MU, ALV. split; [constructor|].
+      * intros TD. exfalso. destruct (teardown_enter _ _ _ _ _ SH E TD) as [T0|[Q _]]; [exact (NT T0) | discriminate Q].
+      * intros a IN. rewrite MU in IN. destruct IN.
+      * cbn [chkR1]. rewrite M1. apply subset_In. intros a IN.
+        destruct (OBS a IN) as (V0 & NS & (y & AY) & OB).
+        assert (NM : In a (o_notified (st04 (tr s)))).
+        { destruct OB as [N|[P|[T|[KT|C]]]]; [exact N | exfalso; eapply (pn_nq a (MLoop t)); eauto; reflexivity | | |].
+          - exfalso. destruct T as (c & INC). rewrite calmpre_nq in INC by reflexivity. destruct INC.
+          - exfalso. destruct KT as [(c & INC & _)|(c & INC & _)]; [|rewrite MQ in INC; destruct INC].
+            destruct INC as [Q|INC]; [discriminate Q | eapply tops_norun; eauto].
+          - exfalso. pose proof (OI_visible _ _ a OO) as VV. rewrite V0 in VV. cbn [imops imop] in VV.
+            rewrite (tops_imops a _ TP), (ist_quiescent a s KK QT K MQ LQ NS) in VV. lia. }
+        apply notified_mono. exact NM.
+    + (* EDropBegin *)
+      cbn [upd04 o_must o_alive] in MU, ALV. split; [constructor|reflexivity].
+      * intros _. exact ALV.
+      * intros a IN. rewrite MU in IN. destruct IN.
+    + (* EOwnNew *)
+      cbn [upd04 o_must o_alive o_slabkid] in MU, ALV, SKD. rewrite M1 in MU. rewrite A1 in ALV. rewrite S1 in SKD.
+      split; [constructor|reflexivity].
+      * intros TD. rewrite ALV. destruct (teardown_enter _ _ _ _ _ SH E TD) as [T0|[Q _]]; [auto|].
+        exfalso. destruct EV as (l & [(h & n & Q' & _)|(h & h2 & Q' & _)]); rewrite Q' in Q; discriminate Q.
+      * intros b IN. rewrite MU in IN. destruct (OBS b IN) as (V0 & NS & (y & AY) & _).
+        assert (NE : b <> a).
+        { intros ->. destruct EV as (l & [(h & n & _ & AN)|(h & h2 & _ & L)]); [congruence | eapply novis_lookup; eauto]. }
+        assert (ND : forall i, m <> MDrain i) by (intros i ->; destruct EV as (l & [(h & n & Q & _)|(h & h2 & Q & _)]); discriminate Q).
+        assert (NN : forall t, m <> MNew t) by (intros t ->; destruct EV as (l & [(h & n & Q & _)|(h & h2 & Q & _)]); discriminate Q).
+        assert (NO : m <> MDropOwn b true) by (intros ->; destruct EV as (l & [(h & n & Q & _)|(h & h2 & Q & _)]); discriminate Q).
+        destruct (KEEP b IN ND NN NO) as (G1 & G2). rewrite VI, SKD. cbn [vis1]. unfold vb.
+        replace (N.eqb b a) with false by (symmetry; apply N.eqb_neq; exact NE). repeat split; auto. lia.
+    + (* EOwnDrop: possibly a new obligation *)
+      subst m. cbn [handle] in E.
+      cbn [upd04 o_must o_alive o_slabkid] in MU, ALV, SKD. rewrite M1, A1, S1, C1 in MU. rewrite A1 in ALV. rewrite S1 in SKD.
+      assert (B : 0 < ctr (HO a) s < CMAX).
+      { pose proof (HB a) as HA. cbn [hmop] in HA. rewrite hind_refl in HA. pose proof (hst_nn (HO a) s). pose proof (LIM a).
+        pose proof (hind_range (HO a) (HR a)). lia. }
+      destruct (drop_own_mq _ _ _ _ _ SR B E) as (CT & G1 & _).
+      split; [constructor|reflexivity].
+      * intros TD. rewrite ALV. destruct (teardown_enter _ _ _ _ _ SH E TD) as [T0|[Q _]]; [auto | discriminate Q].
+      * intros b IN. rewrite MU in IN.
+        assert (OLD : In b (o_must (st04 (tr s))) -> vis b (tr s') = 0 /\ ~ In b (o_slabkid (st04 (tr s'))) /\
+                      (exists y, aget (actors s') b = Some y) /\ Ob b (pre ++ k0) s').
+        { intros INB. destruct (OBS b INB) as (V0 & NS & _ & _).
+          assert (NE : b <> a) by (intros ->; eapply novis_dropown; eauto).
+          assert (ND : forall i, MDropOwn a true <> MDrain i) by (intros i Q; discriminate Q).
+          assert (NN : forall t, MDropOwn a true <> MNew t) by (intros t Q; discriminate Q).
+          assert (NO : MDropOwn a true <> MDropOwn b true) by (intros Q; inversion Q; congruence).
+          destruct (KEEP b INB ND NN NO) as (G2 & G3). rewrite VI, SKD. cbn [vis1]. unfold vb.
+          replace (N.eqb b a) with false by (symmetry; apply N.eqb_neq; exact NE). repeat split; auto. lia. }
+        destruct (((vis a (tr s) - 1 =? 0) && negb (nmem a (o_slabkid (st04 (tr s))))) && o_alive (st04 (tr s))) eqn:ZA; [|auto].
+        destruct IN as [<-|IN]; [|auto].
+        apply andb_prop in ZA as [ZA _]. apply andb_prop in ZA as [Z1 Z2]. apply Z.eqb_eq in Z1.
+        rewrite VI, SKD. cbn [vis1]. unfold vb. rewrite N.eqb_refl. split; [lia|]. split.
+        { intros INS. apply nmem_In in INS. rewrite INS in Z2. discriminate Z2. }
+        split; [exact G1|].
+        destruct (Z.eq_dec (ctr (HO a) s') 0) as [Z|NZ].
+        -- right. right. right. left. right. eapply drop_own_push; eauto.
+        -- right. right. right. right. lia.
+    + (* ESlabAdd *)
+      cbn [upd04 o_must o_alive o_slabkid] in MU, ALV, SKD. rewrite M1 in MU. rewrite A1 in ALV. rewrite S1 in SKD.
+      destruct EV as (h & n & l & -> & AN).
+      split; [constructor|reflexivity].
+      * intros TD. rewrite ALV. destruct (teardown_enter _ _ _ _ _ SH E TD) as [T0|[Q _]]; [auto | discriminate Q].
+      * intros b IN. rewrite MU in IN. destruct (OBS b IN) as (V0 & NS & (y & AY) & _).
+        assert (NE : b <> a) by (intros ->; congruence).
+        assert (ND : forall i, MActs (ASlabAdd h a n :: l) <> MDrain i) by (intros i Q; discriminate Q).
+        assert (NN : forall t, MActs (ASlabAdd h a n :: l) <> MNew t) by (intros t Q; discriminate Q).
+        assert (NO : MActs (ASlabAdd h a n :: l) <> MDropOwn b true) by (intros Q; discriminate Q).
+        destruct (KEEP b IN ND NN NO) as (G1 & G2). rewrite VI, SKD. cbn [vis1]. repeat split; auto; [lia|].
+        intros [Q|Q]; [congruence | auto].
+Qed.
+
+(* ------------------------------------------------------------------ *)
+(** * The theorem *)
+
+Definition IB (k : list mop) (s : st) : Prop := IA k s /\ SK s /\ B1 k s /\ okx chkR1 (tr s) = true.
+
+Lemma IB_init p : IB (map MTop p ++ [MEpilogue]) (init DGlobal).
+Proof.
+  split; [apply IA_init|]. split; [apply SK_init|]. split; [|reflexivity]. constructor.
+  - intros TD. exfalso. revert TD. apply (notear_top []); [reflexivity|].
+    unfold tops. rewrite forallb_app. simpl. rewrite andb_true_r. induction p; simpl; auto.
+  - intros a IN. destruct IN.
+Qed.
+
+Theorem step_IB k s k' s' :
+  Z.of_nat (length (tr s)) < CMAX - 1 -> IB k s -> step k s = Some (k', s') -> IB k' s'.
+Proof.
+  intros LEN (IAA & K & BB & OK) ST.
+  pose proof (step_IA _ _ _ _ LEN IAA ST) as IAA'.
+  pose proof (step_SK _ _ _ _ K ST) as K'.
+  destruct IAA as (SH & T & W & KK & LN & II & OO & F & MM & OKN).
+  apply Tags_split in T as [QT _].
+  destruct k as [|m k0]; [discriminate|]. simpl in ST. destruct (handle m s) as [pre s1] eqn:E. inversion ST; subst.
+  destruct (step_B1 _ _ _ _ _ SH (proj1 KK) QT K OO II LEN E BB OK) as [BB' OK'].
+  split; [exact IAA'|]. split; [exact K'|]. split; [exact BB' | exact OK'].
+Qed.
+
+Lemma run_IB fuel : forall k s t,
+  IB k s -> run fuel k s = Done t -> Z.of_nat (length t) < CMAX - 1 -> okx chkR1 (rev t) = true.
+Proof.
+  induction fuel as [|f IH]; intros k s t I H LEN; simpl in H.
+  - destruct k; [|discriminate]. inversion H; subst. rewrite rev_involutive. apply I.
+  - destruct (step k s) as [[k' s']|] eqn:ST.
+    + eapply IH; [|exact H | exact LEN]. eapply step_IB; [|exact I | exact ST].
+      pose proof (run_len _ _ _ _ H) as L1. pose proof (ext_len _ _ (step_ext _ _ _ _ ST)). lia.
+    + inversion H; subst. rewrite rev_involutive. apply I.
+Qed.
+
+(** Whenever run returns, every actor that lost its last visible owner since the Stakker was created (and outside its
+    teardown) has been notified: for every program and fuel, global / thread-local deferrer, below saturation. *)
+Theorem C04_last_owner_terminates_proved : forall (p : list top) (fuel : nat) (t : list ev),
+  exec DGlobal fuel p = Done t -> Z.of_nat (length t) < CMAX - 1 -> okx chkR1 (rev t) = true.
+Proof. intros p fuel t H LEN. unfold exec in H. eapply run_IB; [apply IB_init | exact H | exact LEN]. Qed.
+
+Print Assumptions C04_last_owner_terminates_proved.
